@@ -163,6 +163,7 @@ namespace bloch::compiler {
                 TypeInfo bound;
             };
             std::vector<TypeParamInfo> typeParams;
+            std::vector<TypeInfo> baseTypeArgs;  // arguments of 'extends Base<...>'
             std::vector<std::string> abstractMethods;
             std::unordered_map<std::string, FieldInfo> fields;
             std::unordered_map<std::string, std::vector<MethodInfo>> methods;
@@ -210,6 +211,11 @@ namespace bloch::compiler {
         const FieldInfo* resolveField(const std::string& name, int line, int column) const;
         bool isSubclassOf(const std::string& derived, const std::string& base) const;
         int inheritanceDistance(const std::string& derived, const std::string& base) const;
+        // The instantiation of class 'baseName' that 'derived' is or inherits from (type
+        // arguments rewritten through every 'extends' clause on the way), if any.
+        std::optional<TypeInfo> inheritedInstantiation(const TypeInfo& derived,
+                                                       const std::string& baseName,
+                                                       int* distance) const;
         bool isAssignableType(const TypeInfo& expected, const TypeInfo& actual) const;
         bool paramsAssignable(const std::vector<TypeInfo>& expected,
                               const std::vector<TypeInfo>& actual) const;
